@@ -130,25 +130,20 @@ def gradhOk (K : KTable) : Bool :=
   (K.hpowW == K.dim) && (K.hpowDw == K.dim) && (K.hpowGh == K.dim + 1) &&
   K.pieces.all (pieceGradhOk K.dim) && pieceGradhOk K.dim K.tail
 
-/-- value and derivative match at every breakpoint (including the support edge) -/
+/-- value and derivative match at every breakpoint (including the support edge);
+`ps.headD t` is the piece that follows -/
 def junctionsC1 : List Piece → Piece → Bool
   | [], _ => true
-  | [p], t => (eval p.w p.hi == eval t.w p.hi) && (eval p.dw p.hi == eval t.dw p.hi)
-  | p :: p' :: ps, t =>
-    (eval p.w p.hi == eval p'.w p.hi) && (eval p.dw p.hi == eval p'.dw p.hi) &&
-      junctionsC1 (p' :: ps) t
+  | p :: ps, t =>
+    (eval p.w p.hi == eval (ps.headD t).w p.hi) && (eval p.dw p.hi == eval (ps.headD t).dw p.hi) &&
+      junctionsC1 ps t
 
 def c1Ok (K : KTable) : Bool := junctionsC1 K.pieces K.tail
 
 /-- at every breakpoint the value does not jump upwards -/
 def jumpsDown : List Piece → Piece → Bool
   | [], _ => true
-  | [p], t => decide (eval t.w p.hi ≤ eval p.w p.hi)
-  | p :: p' :: ps, t => decide (eval p'.w p.hi ≤ eval p.w p.hi) && jumpsDown (p' :: ps) t
-
-def lastOr (a : Rat) : List Rat → Rat
-  | [] => a
-  | b :: r => lastOr b r
+  | p :: ps, t => decide (eval (ps.headD t).w p.hi ≤ eval p.w p.hi) && jumpsDown ps t
 
 /-- the cut points span `[lo, hi]` and certify `dw ≤ 0` there -/
 def pieceSignOk (p : Piece) : Bool :=
